@@ -1,7 +1,8 @@
 CONSTANTS HW = 7
-          Margins = {21}
-          Anchors = {1}
+          Margins = {1, 3, 4}
+          Anchors = {1, 2}
           NMax = 8
+          MCMod = 10
           GenMod = 1
           TPad = 2
 INIT Init
